@@ -11,18 +11,24 @@ structure CfgFor (cfg : MCfg) (T L : Nat) : Prop where
   hT : cfg.T = T
   hL : cfg.L = L
 
-/-- `o` implements a dictionary on values satisfying `Inv level path`; `rr` is the number of digest
+/-- structural facts about the values satisfying `Inv level path`; `rr` is the number of digest
     levels below (`level + rr = L`). -/
-structure OpsSpec (T L : Nat) (D : DigestFn L) (cfg : MCfg) {α : Type} (o : ElemsOps α)
+structure OpsStruct (T L : Nat) (D : DigestFn L) {α : Type} (o : ElemsOps α)
     (Inv : Nat → List Nat → α → Prop) (rr : Nat) : Prop where
   level_eq : ∀ {ℓ path e}, Inv ℓ path e → ℓ + rr = L
   keys : ∀ {ℓ path e}, Inv ℓ path e → ∀ p ∈ o.toList e, KeyOk T L D p.1 ∧ p.1.digs.take ℓ = path
   distinct : ∀ {ℓ path e}, Inv ℓ path e → KeysDistinct (o.toList e)
+  ordered : ∀ {ℓ path e}, Inv ℓ path e →
+    ((o.toList e).map (fun p => p.1.digs)).Pairwise (fun a b => a = b ∨ List.Lex (· < ·) a b)
   count_pos : ∀ {ℓ path e}, Inv ℓ path e → (1 ≤ o.count e ↔ o.toList e ≠ [])
   two_keys : ∀ {ℓ path e}, Inv ℓ path e → 1 ≤ o.count e → o.soleSingle e = none → 2 ≤ (o.toList e).length
   sole : ∀ {ℓ path e x}, Inv ℓ path e → o.soleSingle e = some x →
     SElemOk T L D x ∧ o.toList e = [(x.key, x.val)] ∧ x.size ≤ o.size e
   popIter : ∀ e c, (o.popIter e c).1 = (o.toList e).reverse
+
+/-- `o` implements a dictionary on values satisfying `Inv level path`. -/
+structure OpsSpec (T L : Nat) (D : DigestFn L) (cfg : MCfg) {α : Type} (o : ElemsOps α)
+    (Inv : Nat → List Nat → α → Prop) (rr : Nat) : Prop extends OpsStruct T L D o Inv rr where
   newWith : ∀ {ℓ path x}, ℓ + rr = L → SElemOk T L D x → x.key.digs.take ℓ = path →
     ∃ g, o.newWith cfg ℓ x = .ok g ∧ Inv ℓ path g ∧ o.toList g = [(x.key, x.val)]
   get : ∀ {ℓ path e k}, Inv ℓ path e → KeyOk T L D k → k.digs.take ℓ = path →
@@ -35,6 +41,10 @@ structure OpsSpec (T L : Nat) (D : DigestFn L) (cfg : MCfg) {α : Type} (o : Ele
     ((∀ p ∈ o.toList e, p.1 ≠ k) → o.remove cfg e ℓ k c = .error .keyNotFound) ∧
     (∀ v, (k, v) ∈ o.toList e → ∃ e' c', o.remove cfg e ℓ k c = .ok (k, v, e', c') ∧ Inv ℓ path e' ∧
       RemEffect (o.toList e) (o.toList e') k v ∧ o.size e' ≤ o.size e ∧ c'.ctr = c.ctr)
+
+instance {T L : Nat} {D : DigestFn L} {cfg : MCfg} {α : Type} {o : ElemsOps α}
+    {Inv : Nat → List Nat → α → Prop} {rr : Nat} :
+    CoeOut (OpsSpec T L D cfg o Inv rr) (OpsStruct T L D o Inv rr) := ⟨fun s => s.toOpsStruct⟩
 
 /-- invariant of one element of a digest table at `level`, below digest `hk` -/
 def ElemOk (T L : Nat) (D : DigestFn L) {α : Type} (o : ElemsOps α) (Inv : Nat → List Nat → α → Prop)
